@@ -194,6 +194,9 @@ def _gen_defs(g):
             content = _gen_content(g)
             tag, vals = g.pick(VALUE)
             _place_placeholder(g, content, tag)
+            if g.chance(0.5):
+                # a sibling of the same tag with a fixed value: plugging in the value can change the sibling order
+                _place_placeholder(g, content, tag.replace("#", g.pick(["m5", "20", "b2"])))
             defs[name] = {"name": name, "takes_value": True, "content": content, "values": vals}
         else:
             content = _gen_content(g) if g.chance(0.85) else None
